@@ -14,11 +14,16 @@ REMOTE = [b'x@example.net', b'y@example.com', b'z@mail.example.net']
 REMOTE_BAD = [b'x@nomx.example.net', b'x@nullmx.example.net']
 SYNTAX = [b'foo', b'a@b', b'@example.org', b'a b@example.org', b'a@-', b'a@example..org']
 SENDERS = [b'a@example.net', b'b@example.com', b'alice@example.org', b'']
+# upper case anywhere and quoted local parts with brackets: the envelope carries the lower-cased address
+MIXED_SENDERS = [b'Alice@Example.ORG', b'B@EXAMPLE.com', b'"Order[Dept]"@Shop.Example.NET', b'"x[Y]z"@EXAMPLE.NET']
+MIXED_LOCAL = [b'Alice@Example.Org', b'BOB@example.org', b'List@EXAMPLE.ORG', b'Any@X.Sub.Example.Org']
+MIXED_REMOTE = [b'X@Example.NET', b'"Sales[EMEA]"@Mail.Example.COM', b'Y@EXAMPLE.com', b'"q[R]"@Example.Com']
 
 
 def rcpt(rng, kind=None):
     kind = kind or rng.choice(['ok', 'ok', 'ok', 'no', 'remote', 'remote', 'rbad', 'syntax', 'more', 'nobracket', 'literal'])
     if kind == 'literal': return b'RCPT TO:<' + rng.choice(LITERALS) + b'>\r\n'
+    if kind == 'mixed': return b'RCPT TO:<' + rng.choice(MIXED_LOCAL + MIXED_REMOTE) + b'>\r\n'
     if kind == 'ok': return b'RCPT TO:<' + rng.choice(LOCAL_OK) + b'>\r\n'
     if kind == 'no': return b'RCPT TO:<' + rng.choice(LOCAL_NO) + b'>\r\n'
     if kind == 'remote': return b'RCPT TO:<' + rng.choice(REMOTE) + b'>\r\n'
@@ -31,6 +36,7 @@ def rcpt(rng, kind=None):
 def mail(rng, kind=None):
     kind = kind or rng.choice(['ok', 'ok', 'ok', 'bounce', 'size', 'bigsize', 'body', 'unknownext', 'badext', 'syntax', 'localno', 'space'])
     s = rng.choice(SENDERS[:3])
+    if kind == 'mixed': return b'MAIL FROM:<' + rng.choice(MIXED_SENDERS) + b'>\r\n'
     if kind == 'ok': return b'MAIL FROM:<' + s + b'>\r\n'
     if kind == 'bounce': return b'MAIL FROM:<>\r\n'
     if kind == 'size': return b'MAIL FROM:<' + s + b'> SIZE=' + str(rng.choice([0, 1, 100, 199, 200, 201])).encode() + b'\r\n'
@@ -129,3 +135,43 @@ def gen(rng, n):
     for i in range(n):
         out.append(case(config(rng), sensible(rng) if rng.random() < 0.5 else history(rng)))
     return out
+
+
+# ---------------------------------------------------------------- AUTH (configuration auth=1: checkpassword stand-in, password "secret")
+import base64
+def auth_line(rng, kind):
+    def plain(authz, user, pw): return b'AUTH PLAIN ' + base64.b64encode(authz + b'\0' + user + b'\0' + pw) + b'\r\n'
+    user = rng.choice([b'alice', b'bob@example.org', b'u'])
+    if kind == 'good': return plain(rng.choice([b'', b'', b'admin']), user, b'secret')
+    if kind == 'wrongpw': return plain(b'', user, rng.choice([b'Secret', b'secre', b'secret1', b'x']))
+    if kind == 'nopw': return rng.choice([plain(b'', user, b''), b'AUTH PLAIN ' + base64.b64encode(b'\0' + user) + b'\r\n',
+                                           b'AUTH PLAIN ' + base64.b64encode(user) + b'\r\n', b'AUTH PLAIN ' + base64.b64encode(b'\0\0secret') + b'\r\n'])
+    if kind == 'crash': return plain(b'', b'crash', b'secret')
+    if kind == 'mech': return rng.choice([b'AUTH FOO\r\n', b'AUTH PLAINX abc\r\n', b'AUTH GSSAPI\r\n', b'AUTH PLAI\r\n'])
+    if kind == 'b64': return rng.choice([b'AUTH PLAIN !!!!\r\n', b'AUTH PLAIN AGFsaWNlAHNlY3JldA\r\n'])     # not base64 / not padded
+    return b'AUTH\r\n'
+
+
+def auth_session(rng):
+    """histories mixing EHLO/HELO, failed and successful AUTH, RSET and several transactions, aimed at the question
+    'is this client entitled to relay now?'"""
+    chunks = [rng.choice([b'EHLO c.example.net\r\n', b'EHLO c.example.net\r\n', b'HELO c.example.net\r\n'])]
+    authed = False
+    for _ in range(rng.choice([1, 2, 3])):
+        for _ in range(rng.choice([0, 1, 1, 2])):
+            k = rng.choice(['good', 'wrongpw', 'wrongpw', 'nopw', 'crash', 'mech', 'bare'] + (['good'] if not authed else []))
+            chunks.append(auth_line(rng, k)); authed = authed or k == 'good'
+        if rng.random() < 0.3: chunks.append(rng.choice([b'RSET\r\n', b'EHLO again.example.net\r\n', b'HELO again.example.net\r\n', b'NOOP\r\n']))
+        if rng.random() < 0.25:
+            # a greeting that is refused (blank inside the argument), then what a client may try next
+            chunks.append(rng.choice([b'EHLO client example\r\n', b'HELO client example\r\n', b'EHLO a b\r\n']))
+            if rng.random() < 0.7: chunks.append(rng.choice([b'RSET\r\n', b'NOOP\r\n']))
+            chunks.append(auth_line(rng, rng.choice(['good', 'good', 'wrongpw'])))
+        chunks.append(mail(rng, rng.choice(['ok', 'ok', 'bounce'])))
+        if rng.random() < 0.15: chunks.append(auth_line(rng, 'good'))           # AUTH inside a transaction: bad sequence
+        for _ in range(rng.choice([1, 2, 3])):
+            chunks.append(rcpt(rng, rng.choice(['remote', 'remote', 'ok', 'rbad'])))
+        chunks.append(b'DATA\r\n'); chunks.append(b'Subject: t\r\n\r\nbody\r\n.\r\n')
+    return chunks
+
+
